@@ -113,8 +113,9 @@ def predicates(c, ri, rm):
     for t in ts:
         T *= t
     slack = tol + 2 * eps * k
-    if any(abs(x - T * y) > slack for x, y in zip(rb, b)):
-        out.append("belief masses are not the originals scaled by the product of the trust levels")
+    # scaling is exact up to rounding: relative accuracy, plus the 2 eps the vacuous shortcut may cost per step
+    if any(abs(x - T * y) > 2 * eps * k + 64 * eps * k * T * y for x, y in zip(rb, b)):
+        out.append("belief masses are not the originals scaled by the product of the trust levels: %r" % (vals[:n],))
     if abs(ru - (1 - T * (1 - u))) > slack:
         out.append("uncertainty is not 1 - t(1-u)")
     if any(x < -tol for x in rb) or ru < -tol or abs(sum(rb) + ru - 1) > slack:
